@@ -83,3 +83,185 @@ def generate(family, seed, n, start=0, **kw):
         rng = random.Random(f'{family}-{seed}-{start + i}')
         out.append(FAMILIES[family](rng, start + i, **kw))
     return out
+
+
+# ------------------------------------------------------------------------------------------ rm
+def _req(rng, rids, allow_bad=True):
+    n = rng.choice([1, 1, 2, 2, 3])
+    keys = rng.sample(rids + ([7] if allow_bad and rng.random() < 0.15 else []), min(n, len(rids)))
+    ent = []
+    for k in keys:
+        c = rng.random()
+        if c < 0.08 and allow_bad:
+            a = -rng.randint(1, 2)
+        elif c < 0.2:
+            a = 0
+        else:
+            a = rng.randint(1, 3)
+        ent.append(f'{k}:{a}')
+    return ';'.join(ent)
+
+
+def gen_rm(rng, idx, big=False, prestart=True):
+    """Resource-manager family: add/remove capacity, reserve (multi, zero, negative, unknown),
+    full/partial/repeated release, merge, registrations with callbacks that reserve/release/register,
+    operations before the first simulate, time advancing between operations."""
+    L = [['scenario', str(idx)], ['seed', str(rng.randrange(1000)), str(rng.choice(WMODS))]]
+    rids = [0, 1, 2][:rng.randint(1, 3)]
+    for r in rids:
+        if rng.random() < 0.85:
+            L.append(['res', str(r), str(rng.randint(0, 5))])
+    if rng.random() < 0.1:
+        L.append(['res', '7', str(rng.choice([-3, -1, 2]))])
+    nscripts = rng.randint(3, 8)
+    nh = 4
+
+    def rm_op(k=None):
+        c = rng.random()
+        h = rng.randrange(nh)
+        if c < 0.18:
+            return ['addres', str(rng.choice(rids + [7] if rng.random() < 0.1 else rids)), str(rng.choice([-4, -2, -1, 0, 1, 2, 3]))]
+        if c < 0.48:
+            return ['reserve', str(h), _req(rng, rids)]
+        if c < 0.63:
+            return ['release', str(h)]
+        if c < 0.73:
+            return ['release', str(h), _req(rng, rids)]
+        if c < 0.80:
+            return ['merge', str(h), str(rng.randrange(nh))]
+        kk = rng.randrange((k if k is not None else -1) + 1, nscripts + 1)
+        if kk >= nscripts:
+            kk = nscripts - 1 if (k is None or k < nscripts - 1) else None
+        if kk is None:
+            return ['reserve', str(h), _req(rng, rids)]
+        return ['register', str(kk), _req(rng, rids, allow_bad=False)]
+
+    for k in range(nscripts):
+        for _ in range(rng.choice([0, 1, 1, 2, 3])):
+            L.append(['script', str(k)] + rm_op(k))
+    if prestart and rng.random() < 0.25:
+        for _ in range(rng.randint(1, 3)):
+            L.append(['ext'] + rm_op())
+    for _ in range(rng.randint(2, 6)):
+        for _ in range(rng.randint(0, 5)):
+            if rng.random() < 0.6:
+                L.append(['ext'] + rm_op())
+            else:
+                L.append(['ext', 'schedrel', str(rng.choice([0, 0, 1, 4, 8])), '-2', str(rng.randrange(nscripts)),
+                          str(pick_prio(rng))])
+        L.append(['run', str(rng.choice([0, 1, 4, 8, 16]))])
+    L.append(['end'])
+    return L
+
+
+# --------------------------------------------------------------------------------------- maint
+def gen_maint(rng, idx, big=False):
+    """Maintainer family: capacities (inf, default, 0..3), fake Maintainable targets with
+    table-driven duration/capacity/cost and scripted hooks that create further orders, duplicates,
+    bursts at one instant, needed capacity 0 and above the total, duration 0."""
+    L = [['scenario', str(idx)], ['seed', str(rng.randrange(1000)), str(rng.choice(WMODS))]]
+    nm = rng.choice([1, 1, 2])
+    for _ in range(nm):
+        L.append(['asset', 'maint', 'cap=' + rng.choice(['inf', 'def', '0', '1', '2', '2', '3']),
+                  'value=' + str(rng.choice([0, 100]))])
+    nt = rng.randint(2, 4)
+    nscripts = rng.randint(3, 8)
+    for t in range(nt):
+        params = ','.join(f'{tag}:{rng.choice([0, 8, 8, 16, 24])}:{rng.choice([0, 1, 1, 2, 5])}:{rng.choice([0, 0, 3, 10])}'
+                          for tag in range(3))
+        st = str(rng.randrange(nscripts)) if rng.random() < 0.3 else '-'
+        en = str(rng.randrange(nscripts)) if rng.random() < 0.3 else '-'
+        L.append(['target', str(t), 'dev=-', f'start={st}', f'end={en}', f'params={params}'])
+
+    def wo():
+        return ['wo', str(rng.randrange(nm)), str(rng.randrange(nt)), str(rng.randrange(3)), str(rng.randrange(5))]
+    for k in range(nscripts):
+        for _ in range(rng.choice([0, 1, 1, 2, 3])):
+            if rng.random() < 0.85:
+                L.append(['script', str(k)] + wo())
+            else:
+                L.append(['script', str(k), 'setparams', str(rng.randrange(nt)), str(rng.randrange(3)),
+                          str(rng.choice([0, 8, 16])), str(rng.choice([0, 1, 2])), str(rng.choice([0, 5]))])
+    for _ in range(rng.randint(4, 12)):
+        L.append(['ext', 'sched', str(rng.choice([0, 0, 4, 8, 8, 8, 16, 20, 24, 32, 40])), '-2',
+                  str(rng.randrange(nscripts)), str(pick_prio(rng))])
+    L.append(['run', str(rng.choice([16, 32, 48]))])
+    if rng.random() < 0.5:
+        for _ in range(rng.randint(1, 3)):
+            L.append(['ext'] + wo())
+        L.append(['run', str(rng.choice([16, 64]))])
+    L.append(['end'])
+    return L
+
+
+# --------------------------------------------------------------------------------------- sched
+def gen_sched(rng, idx, big=False):
+    """ActionScheduler family: timetables with repeated states, zero and fractional durations,
+    cyclical / not / defaulted, register/unregister before the run and from events."""
+    L = [['scenario', str(idx)], ['seed', str(rng.randrange(1000)), str(rng.choice(WMODS))]]
+    ns = rng.choice([1, 1, 2])
+    for _ in range(ns):
+        n = rng.randint(1, 5)
+        tt = ','.join(f'{rng.choice([0, 1, 3, 8, 8, 16, 20])}:{rng.randint(0, 3)}' for _ in range(n))
+        if all(e.split(':')[0] == '0' for e in tt.split(',')):
+            tt += ',8:1'
+        L.append(['asset', 'sched', 'cyc=' + rng.choice(['def', '1', '0', '0']), f'tt={tt}'])
+    nscripts = rng.randint(2, 6)
+
+    def reg():
+        if rng.random() < 0.65:
+            return ['regobj', str(rng.randrange(ns)), str(rng.randrange(4)), rng.choice(['-', '-', '0', '1'])]
+        return ['unregobj', str(rng.randrange(ns)), str(rng.randrange(4))]
+    for k in range(nscripts):
+        for _ in range(rng.choice([1, 1, 2])):
+            L.append(['script', str(k)] + reg())
+    for _ in range(rng.randint(0, 3)):
+        L.append(['ext'] + reg())
+    for _ in range(rng.randint(2, 8)):
+        L.append(['ext', 'sched', str(rng.choice([0, 3, 8, 8, 16, 24, 27, 40])), '-2', str(rng.randrange(nscripts)),
+                  str(rng.choice(PRIOS + [44, 45, 43]))])
+    L.append(['run', str(rng.choice([24, 40, 64, 100]))])
+    if rng.random() < 0.4:
+        L.append(['ext'] + reg())
+        L.append(['run', str(rng.choice([16, 50]))])
+    L.append(['end'])
+    return L
+
+
+# -------------------------------------------------------------------------------------- sensor
+def gen_sensor(rng, idx, big=False):
+    """Periodic sensors (interval, capacity, probes over changing variables, callbacks) and a
+    condition-monitoring system with duplicate add_sensor calls."""
+    L = [['scenario', str(idx)], ['seed', str(rng.randrange(1000)), str(rng.choice(WMODS))]]
+    nv = rng.randint(1, 3)
+    for v in range(nv):
+        L.append(['var', str(v), str(rng.randint(0, 9))])
+    ns = rng.choice([1, 2])
+    for _ in range(ns):
+        vars_ = ','.join(str(rng.randrange(nv)) for _ in range(rng.randint(1, 3)))
+        L.append(['asset', 'sensor', 'per', 'interval=' + str(rng.choice([1, 3, 8, 16, 5])),
+                  'cap=' + rng.choice(['def', 'inf', '1', '2', '3', '5']), f'vars={vars_}', 'cbs=' + str(rng.randint(0, 2))])
+    ncms = rng.choice([0, 1, 1, 2])
+    for _ in range(ncms):
+        L.append(['asset', 'cms'])
+    nscripts = rng.randint(2, 5)
+    for k in range(nscripts):
+        for _ in range(rng.choice([1, 2])):
+            if ncms and rng.random() < 0.3:
+                L.append(['script', str(k), 'addsensor', str(rng.randrange(ncms)), str(rng.randrange(ns))])
+            else:
+                L.append(['script', str(k), 'setvar', str(rng.randrange(nv)), str(rng.randint(0, 9))])
+    for c in range(ncms):
+        for _ in range(rng.randint(0, 2)):
+            L.append(['ext', 'addsensor', str(c), str(rng.randrange(ns))])
+    for _ in range(rng.randint(2, 8)):
+        L.append(['ext', 'sched', str(rng.choice([0, 3, 8, 8, 16, 24, 27, 40])), '-2', str(rng.randrange(nscripts)),
+                  str(rng.choice(PRIOS))])
+    L.append(['run', str(rng.choice([24, 40, 64]))])
+    if rng.random() < 0.4:
+        L.append(['run', str(rng.choice([16, 30]))])
+    L.append(['end'])
+    return L
+
+
+FAMILIES.update({'rm': gen_rm, 'maint': gen_maint, 'sched': gen_sched, 'sensor': gen_sensor})
